@@ -352,7 +352,8 @@ class RealFloat(numbers.Rational):
                     other_sgn = math.copysign(1.0, other) # extract the sign bit
                     s = self._s != (other_sgn < 0)
                     res_sgn = -1.0 if s else 1.0
-                    return other * res_sgn
+                    # `other` already carries its own sign: scale its magnitude
+                    return abs(other) * res_sgn
                 else:
                     other = RealFloat.from_float(other)
             case Fraction():
